@@ -160,3 +160,23 @@ CLAIMED['C46'] = dict(
          "symlinks, races and passthrough entries are outside the claim.",
     technique="CrossHair symbolic execution (z3 strings) of the real path-resolution code against PEP316 contracts",
     design_ref="DESIGN.md §3 C46", engine='crosshair')
+
+CLAIMED['C33'] = dict(
+    level='other',
+    text="Bounded exhaustive exploration of StrPatchwork histories driven by the symx engine: the operation code, index, and "
+         "payload of each of K=2 (quick) / 3 (thorough) steps are solver variables that concretise exhaustively (array('B') is C), "
+         "and after every history every index, every slice and a set of searches are compared with a bytearray-with-padding model.",
+    note="Trusted: vf/symx.py, z3 (drives the enumeration only: no symbolic arithmetic survives the C array boundary -- this is "
+         "bounded exhaustive exploration, labelled as such).",
+    technique="solver-driven exhaustive enumeration of bounded operation histories of the real class against a model",
+    design_ref="DESIGN.md §3 C33")
+CLAIMED['C45'] = dict(
+    level='other',
+    text="(a) every history of 3 (quick) / 4 (thorough) libimp registrations over 7 library-name variants x 6 functions/ordinals "
+         "is explored (solver-driven enumeration) and compared with a model after each step: stable bases, stable and pairwise "
+         "distinct stubs, stubs map back. (b) inductive allocator step: from the state reached after k imports of one library "
+         "(k symbolic, 0..300/600) one more import must not land in another library's window.",
+    note="Trusted: vf/symx.py, z3. Names are dictionary keys, hence concretised; the 255-imports-per-library limit is recorded as "
+         "known finding C45-KF1.",
+    technique="solver-driven exhaustive enumeration of bounded histories + inductive step with a symbolic import count",
+    design_ref="DESIGN.md §3 C45")
